@@ -649,6 +649,7 @@ class SSHLineEditor:
             self._erase_input()
             self._echo = False
         elif echo and not self._echo:
+            self._erased = ''
             self._echo = True
             self._draw_input()
 
